@@ -330,7 +330,8 @@ func (modComp) Exec(c *wire.Case, w *wire.Writer) {
 		sess.out = nil
 		// full attached list of every unit, and the stats the engine computes from it
 		for id := 1; id <= 3; id++ {
-			var uids, names, srcs, durs, counts, maxs, renew []int
+			var uids, names, srcs, durs, counts, maxs, renew, cadds []int
+			var imms []string
 			var p2, stats []string
 			for _, vi := range sess.mgr.VerifInstances(key.TargetID(id)) {
 				uids = append(uids, sess.uids[vi.Inst])
@@ -340,6 +341,12 @@ func (modComp) Exec(c *wire.Case, w *wire.Writer) {
 				counts = append(counts, int(vi.Model.Count))
 				maxs = append(maxs, int(vi.Model.MaxCount))
 				renew = append(renew, vi.Renew)
+				cadds = append(cadds, int(vi.Model.CountAddWhenStack))
+				if vi.Model.TickImmediately {
+					imms = append(imms, "1")
+				} else {
+					imms = append(imms, "0")
+				}
 				if vi.CanP2 {
 					p2 = append(p2, "1")
 				} else {
@@ -353,7 +360,7 @@ func (modComp) Exec(c *wire.Case, w *wire.Writer) {
 			}
 			st := eng.attr.Stats(key.TargetID(id))
 			w.Ob(wire.R("list").I("t", id).Is("uids", uids).Is("names", names).Is("srcs", srcs).Is("durs", durs).Is("counts", counts).
-				Is("maxs", maxs).Is("renew", renew).Ss("p2", p2).S("stats", strings.Join(stats, ";")).
+				Is("maxs", maxs).Is("renew", renew).Is("cadds", cadds).Ss("imms", imms).Ss("p2", p2).S("stats", strings.Join(stats, ";")).
 				F("atkpct", st.GetProperty(prop.ATKPercent)).F("reduce", st.GetProperty(prop.AllDamageReduce)).F("atk", st.ATK()).F("cc", st.GetProperty(prop.CritChance)))
 		}
 	}
